@@ -70,7 +70,7 @@ Definition process_l (st : dt) (seq0 : Z) (pl0 : list Z) : res (dt * bool) :=
 Definition ls_step (st : dt) (op : Z) (args : list tok) : dt * list tok :=
   match op, args with
   | 0, [TN s] => (dt_new s, [TN 0])
-  | 1, [TN s; TB b] =>
+  | 1, [TN s; TB b] | 1, [TN s; TB b; TN _] =>
       match process_l st s b with
       | Ok (st', _) => (st', [TB (dt_out st')])
       | OOB n => (st, [TN (-1); TN n])
